@@ -34,6 +34,17 @@ def dec_val(v):
     return v
 
 
+def _numnorm(v):
+    """JSON numbers: 4294967296.0 and 4294967296 are the same JavaScript number"""
+    if isinstance(v, float) and v == int(v) and abs(v) < 1e21:
+        return int(v)
+    if isinstance(v, list):
+        return [_numnorm(x) for x in v]
+    if isinstance(v, dict):
+        return {k: _numnorm(x) for k, x in v.items()}
+    return v
+
+
 def seg_key(seg):
     """JavaScript's ToPropertyKey of a (marker-encoded) path segment"""
     if isinstance(seg, bool):
@@ -183,7 +194,7 @@ def run(res):
                 got = get_path(d0, data_path)
                 if isinstance(got, dict) and "$unsupported" in got:
                     continue
-                if json.dumps(got, sort_keys=True) != json.dumps(value, sort_keys=True):
+                if json.dumps(_numnorm(got), sort_keys=True) != json.dumps(_numnorm(value), sort_keys=True):
                     # for-loop items over non-arrays (objects / strings / numbers) are addressed by key: allow object keys
                     found += 1
                     if found <= 6:
